@@ -316,3 +316,47 @@ def pl_points_ok(pts, n, v, y):
                      forall(0, n, lambda k: pts[k].Mach <= pts[p].Mach or pts[k].Mach >= pts[q].Mach) and
                      eq(y, pts[p].BC + (pts[q].BC - pts[p].BC) / (pts[q].Mach - pts[p].Mach) * (v - pts[p].Mach))))
     return lowest or highest or between
+
+
+# ---------------------------------------------------------------------------------------
+# C08 harnesses (the engine extracts closed-form expressions from the real code through these)
+from py_ballisticcalc.conditions import Atmo  # noqa: E402
+from py_ballisticcalc.unit import Distance, Temperature, Pressure  # noqa: E402
+
+
+def h_standard_station(h_ft):
+    """(temperature C, pressure hPa, density ratio, speed of sound fps) of the standard atmosphere at h_ft"""
+    a = Atmo.icao(Distance.Foot(h_ft))
+    return (a._t0, a._p0, a._density_ratio, a._mach)
+
+
+def h_query_from_station(a0_ft, h_ft):
+    """(density ratio, speed of sound) predicted at h_ft by the standard station created at a0_ft"""
+    a = Atmo.icao(Distance.Foot(a0_ft))
+    return a.get_density_factor_and_mach_for_altitude(h_ft)
+
+
+def h_density_ratio(t_c, p_hpa, hum):
+    return Atmo.calculate_air_density(t_c, p_hpa, hum) / 1.2250
+
+
+def h_shortcut_jump(t_c, d_ft):
+    """density and speed-of-sound predicted d_ft away from a station at temperature t_c, relative to the
+    station's own values (independent of station pressure, altitude and humidity: they cancel)"""
+    a = Atmo(Distance.Foot(0), Pressure.hPa(1000), Temperature.Celsius(t_c), 0.0)
+    r = a.get_density_factor_and_mach_for_altitude(d_ft)
+    return (r[0] / a._density_ratio, r[1] / a._mach)
+
+
+def h_station_tp_at(a0_ft, h_ft):
+    """(temperature C, pressure hPa) that the standard station created at a0_ft predicts for altitude h_ft"""
+    a = Atmo.icao(Distance.Foot(a0_ft))
+    return (a.temperature_at_altitude(h_ft), a.pressure_at_altitude(h_ft))
+
+
+def h_density_prediction_ratio(t0, p0, t, p):
+    """predicted dry-air density ratio at conditions (t, p) from a station at (t0, p0), over the density ratio a
+    station created at (t, p) itself reports"""
+    station = Atmo.calculate_air_density(t0, p0, 0.0) / 1.2250
+    predicted = station * ((t0 + 273.15) * p) / (p0 * (t + 273.15))
+    return predicted / (Atmo.calculate_air_density(t, p, 0.0) / 1.2250)
